@@ -347,6 +347,12 @@ def arrayStep2 (s : Store) (toks : List String) : Option (Store × String) :=
     some (s, match s.dset? ds, tl.toList with
       | some dims, [t] => if lifetimeAccepts dims t ia then "ok" else "err"
       | _, _ => "err")
+  | ["mkltp", ds, tl, ia, x] =>
+    -- a lifetime model whose mean is given as an array: it is cast to the model's dimensions (by letter)
+    some (s, match s.dset? ds, tl.toList, s.arr? x with
+      | some dims, [t], some a =>
+        if lifetimeAccepts dims t ia && (a.castTo? dims).isSome then "ok" else "err"
+      | _, _, _ => "err")
   | ["dump", x] => some (s, optStr (s.arr? x) showArr)
   | ["dumpall"] => some (s, "ok " ++ dumpAll s)
   | _ => none
